@@ -73,6 +73,16 @@ theorem sendMsg_aw (env : Env) (m : Msg) (hm : m.mtype ≠ mResendRequest) : Sat
 theorem logoutMsg_mtype (t : String) : (logoutMsg t).mtype ≠ mResendRequest := by
   simp [logoutMsg, Msg.mk', mLogout, mResendRequest]
 
+/-- `except Exception: log` around a call keeps a step relation that `caught` effects respect -/
+theorem swallow_sat {α} {S : StepRel} {x : M α} (d : α) (hx : Sat S x)
+    (he : ∀ ex c, S.R c c [Effect.caught ex]) : Sat S (swallow d x) := by
+  unfold swallow
+  exact Sat.tryCatch hx fun ex => Sat.bind (Sat.emit (he ex)) fun _ => Sat.pure d
+
+theorem aw_caught (ex : Exc) (c : Conn) : AW.R c c [Effect.caught ex] := by
+  refine ⟨?_, fun h => Or.inl ⟨h, Or.inl rfl⟩, fun h => h⟩
+  intro f hf; simp at hf
+
 theorem disconnect_aw (env : Env) (d : Nat) (l : Option String) : Sat AW (disconnect env d l) := by
   refine Sat.of_holds fun c => ?_
   unfold disconnect stateSet
@@ -85,7 +95,7 @@ theorem disconnect_aw (env : Env) (d : Nat) (l : Option String) : Sat AW (discon
     all_goals (have hd := of_decide_eq_true ‹decide (d ≤ 3) = true›; omega)
   | some t =>
     wp_simp
-    repeat' (first | apply Holds.of_sat' (sendMsg_aw env _ (logoutMsg_mtype t)) | intro _ | apply And.intro | wp_simp)
+    repeat' (first | apply Holds.of_sat' (swallow_sat () (sendMsg_aw env _ (logoutMsg_mtype t)) aw_caught) | intro _ | apply And.intro | wp_simp)
     all_goals simp_all [AW, noRR, st_RESENDREQ_AWAITING, st_DISCONNECTED_BROKEN_CONN]
     all_goals (have hd := of_decide_eq_true ‹decide (d ≤ 3) = true›; first | omega | grind)
 
